@@ -41,6 +41,15 @@ async fn scenario(role: Role, rng: &mut Rng, ch: &mut dyn Choose, long_completed
     let size_limit: usize = *rng.pick(&[0usize, 64, 65535]);
     cfg.max_receive = limit;
     cfg.max_receive_size = size_limit;
+    // MQTT 5 server: the handshake may advertise a Receive Maximum of its own for this connection;
+    // the advertised value is the one that counts, whatever the configuration says
+    if role == Role::V5Server && limit > 0 && rng.chance(1, 2) {
+        cfg.hs.receive_max = Some(limit);
+        cfg.max_receive = *rng.pick(&[1u16, 16]);
+        if cfg.max_receive == limit {
+            cfg.max_receive = limit + 3;
+        }
+    }
     cfg.min_chunk_size = *rng.pick(&[0u32, 4]);
     cfg.max_payload_buffer = *rng.pick(&[16usize, 32 * 1024]);
     let v5 = role.is_v5();
@@ -156,12 +165,20 @@ async fn scenario(role: Role, rng: &mut Rng, ch: &mut dyn Choose, long_completed
         if rng.chance(1, 3) && bytes.len() > 10 {
             // trickle: the payload streams to the handler
             o.streamed += 1;
-            let cut = 6 + rng.usize(bytes.len() - 8);
-            c.peer.write_part(&bytes[..cut]);
-            if ch.chance(1, 2) {
-                c.settle().await;
+            // 2..4 fragments: the PUBLISH is announced with the first one, every further one is a
+            // payload chunk of its own
+            let mut cuts: Vec<usize> = (0..1 + rng.usize(3)).map(|_| 6 + rng.usize(bytes.len() - 8)).collect();
+            cuts.sort_unstable();
+            cuts.dedup();
+            let mut prev = 0;
+            for cut in cuts {
+                c.peer.write_part(&bytes[prev..cut]);
+                prev = cut;
+                if ch.chance(1, 2) {
+                    c.settle().await;
+                }
             }
-            c.peer.write_part(&bytes[cut..]);
+            c.peer.write_part(&bytes[prev..]);
         } else {
             c.peer.write_part(&bytes);
         }
